@@ -1,4 +1,6 @@
 import Mp.ParseProofs
-/-! C08 — parsing is total: property theorems. -/
+import Mp.PoolProofs
+/-! C08 — parsing is total: property theorems (proved in Mp.LexProofs / Mp.ParseProofs / Mp.PoolProofs). -/
 #print axioms Mp.scan_progress
 #print axioms Mp.parse_fuel_sufficient
+#print axioms Pool.history_independent
